@@ -155,4 +155,92 @@ static std::string cmd_run(const std::vector<std::string>& a) {
 	return out;
 }
 
+// runfile <engine> <path> <fuel>: interpret a document from a file; the trace uses ids/xpaths of the document
+class FileMonitor : public InterpreterMonitor {
+public:
+	Recorder* r;
+	FileMonitor(Recorder* rec) : r(rec) {}
+	static std::string nm(const DOMElement* e) { return HAS_ATTR(e, X("id")) ? ATTR(e, X("id")) : DOMUtils::xPathForNode(e); }
+	void beforeProcessingEvent(const std::string&, const Event& event) { r->tok("EV:" + event.name); }
+	void beforeMicroStep(const std::string&) { r->tok("MS{"); }
+	void afterMicroStep(const std::string&) { r->tok("}MS"); }
+	void beforeExitingState(const std::string&, const std::string&, const DOMElement* s) { r->tok("X{:" + nm(s)); }
+	void afterExitingState(const std::string&, const std::string&, const DOMElement* s) { r->tok("}X:" + nm(s)); }
+	void beforeEnteringState(const std::string&, const std::string&, const DOMElement* s) { r->tok("E{:" + nm(s)); }
+	void afterEnteringState(const std::string&, const std::string&, const DOMElement* s) { r->tok("}E:" + nm(s)); }
+	void beforeTakingTransition(const std::string&, const DOMElement* t) { r->tok("T{:" + DOMUtils::xPathForNode(t)); }
+	void afterTakingTransition(const std::string&, const DOMElement* t) { r->tok("}T"); }
+	void beforeExecutingContent(const std::string&, const DOMElement* e) { r->tok("C{:" + DOMUtils::xPathForNode(e)); }
+	void afterExecutingContent(const std::string&, const DOMElement* e) { r->tok("}C"); }
+	void onStableConfiguration(const std::string&) { r->tok("STABLE"); }
+	void beforeCompletion(const std::string&) { r->tok("COMPL{"); }
+	void afterCompletion(const std::string&) { r->tok("}COMPL"); }
+};
+
+static std::string cmd_runfile(const std::vector<std::string>& a) {
+	if (a.size() < 4) return "ERR usage";
+	Recorder rec;
+	int fuel = atoi(a[3].c_str());
+	Interpreter* inp = new Interpreter(Interpreter::fromURL(a[2]));
+	Interpreter& in = *inp;
+	ActionLanguage al;
+	al.logger = Logger(std::shared_ptr<LoggerImpl>(new RecLogger(&rec)));
+	al.microStepper = MicroStep(Factory::getInstance()->createMicroStepper(a[1], (MicroStepCallbacks*)in.getImpl().get()));
+	in.setActionLanguage(al);
+	FileMonitor mon(&rec);
+	in.addMonitor(&mon);
+	int idle = 0;
+	while (fuel-- > 0) {
+		InterpreterState s = in.step(20);
+		if (s == USCXML_FINISHED) { rec.tok("RET:FINISHED"); break; }
+		if (s == USCXML_IDLE) { if (++idle > 60) break; continue; }
+		rec.tok(std::string("RET:") + rcName(s));
+	}
+	rec.tok(in.isInState("pass") ? "PASS" : "NOPASS");
+	std::string out = rec.out.str();
+	for (auto& ch : out) if (ch == '\n' || ch == '\r') ch = ' ';
+	vd_reap(inp);
+	return out;
+}
+
+// runv: like run, but validate first; a document with a fatal issue is not interpreted
+static std::string cmd_runv(const std::vector<std::string>& a) {
+	if (a.size() < 5) return "ERR usage";
+	{
+		Interpreter* vp = new Interpreter(Interpreter::fromXML(unhex(a[2]), ""));
+		int fatal = 0, warn = 0;
+		for (auto& is : vp->validate()) {
+			if (is.severity == InterpreterIssue::USCXML_ISSUE_FATAL) fatal++;
+			else if (is.severity == InterpreterIssue::USCXML_ISSUE_WARNING) warn++;
+		}
+		vd_reap(vp);
+		if (fatal > 0) {
+			std::ostringstream o; o << "REJECTED fatal=" << fatal << " warn=" << warn; return o.str();
+		}
+	}
+	return cmd_run(a);
+}
+
+// validate <hex scxml>: Interpreter::validate(); severity:message@xpath list
+static std::string cmd_validate(const std::vector<std::string>& a) {
+	if (a.size() < 2) return "ERR usage";
+	Interpreter* vp = new Interpreter(Interpreter::fromXML(unhex(a[1]), ""));
+	int fatal = 0, warn = 0, info = 0;
+	std::ostringstream o;
+	for (auto& is : vp->validate()) {
+		if (is.severity == InterpreterIssue::USCXML_ISSUE_FATAL) fatal++;
+		else if (is.severity == InterpreterIssue::USCXML_ISSUE_WARNING) warn++;
+		else info++;
+		std::string m = is.message;
+		for (auto& ch : m) if (ch == '\n' || ch == '\r' || ch == '|') ch = ' ';
+		o << " | " << (int)is.severity << ":" << m << " @" << is.xPath;
+	}
+	vd_reap(vp);
+	std::ostringstream h; h << "V fatal=" << fatal << " warn=" << warn << " info=" << info;
+	return h.str() + o.str();
+}
+
 VD_REGISTER(run, cmd_run)
+VD_REGISTER(runv, cmd_runv)
+VD_REGISTER(validate, cmd_validate)
+VD_REGISTER(runfile, cmd_runfile)
